@@ -161,13 +161,13 @@ def _mk(emit):
 for _e in EMITS:
     _sql = _e.startswith("sqlalchemy")
     ob("C20", "P1.dry.%s" % _e, {"dry_run": R(1, 1), "recursive": BOOL, "no_word_wrap": R(0, 0), "blacklist_sub": BOOL, "sql_sub": BOOL if _sql else R(0, 0), "preexisting": BOOL},
-       tier="quick" if _e in ("class", "sqlalchemy", "function") else "thorough", T=900, tpath=300, funcs=FUNCS,
+       tier="quick" if _e in ("class", "sqlalchemy", "function", "argparse") else "thorough", T=900, tpath=300, funcs=FUNCS,
        bound="DRY RUN on the fixture package (2 levels, class + function re-exported through __init__/__all__), emit kind %s; recursive, blacklist of the sub-package, "
              "%soutput directory pre-existing or not: all solver booleans; no file-system mutator may be reached" % (_e, "emit_sqlalchemy_submodule, " if _sql else ""))(_mk(_e))
     ob("C20", "P1.real.%s" % _e, {"dry_run": R(0, 0), "recursive": BOOL, "no_word_wrap": R(0, 0), "blacklist_sub": R(0, 0), "sql_sub": R(0, 0), "preexisting": R(0, 0)},
-       tier="quick" if _e == "class" else "thorough", T=1200, tpath=500, funcs=FUNCS,
+       tier="quick" if _e in ("class", "sqlalchemy") else "thorough", T=1200, tpath=500, funcs=FUNCS,
        bound="REAL run on the fixture package, emit kind %s, recursive on/off (solver boolean): every mutated path lies under the output directory, none under the source package" % _e)(_mk(_e))
     ob("C20", "P1.real_flags.%s" % _e, {"dry_run": R(0, 0), "recursive": R(1, 1), "no_word_wrap": R(0, 0), "blacklist_sub": BOOL, "sql_sub": BOOL if _sql else R(0, 0), "preexisting": BOOL},
-       tier="thorough", T=3000, tpath=600, funcs=FUNCS,
+       tier="quick" if _e in ("class", "sqlalchemy") else "thorough", T=1500, tpath=600, funcs=FUNCS,
        bound="REAL recursive run, emit kind %s: blacklist of the sub-package, %soutput directory pre-existing or not (solver booleans); paths under the output directory only, "
              "blacklisted sub-package produces no output" % (_e, "emit_sqlalchemy_submodule, " if _sql else ""))(_mk(_e))
